@@ -83,23 +83,44 @@ def method_body(cls, name):
     return node, body, params
 
 
+def straight_line(cls, name, body, env):
+    """plain assignments to local names (named temporaries) in front of the last statement: evaluated into the environment; comments /
+    docstring-like expression statements are skipped.  Returns the last statement."""
+    stmts = [b for b in body if not (isinstance(b, ast.Expr) and isinstance(b.value, ast.Constant))]
+    for st in stmts[:-1]:
+        if isinstance(st, ast.Assign) and len(st.targets) == 1 and isinstance(st.targets[0], ast.Name):
+            env[st.targets[0].id] = to_sym(st.value, env, cls)
+        else:
+            raise Unsup(f'{cls}.{name}: statement outside the map subset: {ast.unparse(st)[:60]}')
+    if not stmts:
+        raise Unsup(f'{cls}.{name}: empty body')
+    return stmts[-1]
+
+
 def method_term(cls, name, arg):
     node, body, params = method_body(cls, name)
-    if len(body) != 1 or not isinstance(body[0], ast.Return) or len(params) != 2:
-        raise Unsup(f'{cls}.{name}: expected a single return statement')
-    return to_sym(body[0].value, {params[1]: arg}, cls)
+    if len(params) != 2:
+        raise Unsup(f'{cls}.{name}: signature')
+    env = {params[1]: arg}
+    last = straight_line(cls, name, body, env)
+    if not isinstance(last, ast.Return) or last.value is None:
+        raise Unsup(f'{cls}.{name}: expected assignments to temporaries followed by a return statement')
+    return to_sym(last.value, env, cls)
 
 
 def chain_factor(cls, p):
     node, body, params = method_body(cls, 'derivative_chain')
     if len(params) != 3:
         raise Unsup(f'{cls}.derivative_chain: signature')
-    if len(body) == 1 and isinstance(body[0], ast.Pass):
+    if len(body) == 1 and (isinstance(body[0], ast.Pass) or (isinstance(body[0], ast.Return) and (body[0].value is None or
+                           (isinstance(body[0].value, ast.Constant) and body[0].value.value is None)))):
         return sp.Integer(1)
-    if len(body) == 1 and isinstance(body[0], ast.AugAssign) and isinstance(body[0].op, ast.Mult) \
-            and isinstance(body[0].target, ast.Name) and body[0].target.id == params[1]:
-        return to_sym(body[0].value, {params[2]: p}, cls)
-    raise Unsup(f'{cls}.derivative_chain: expected `gradient *= <factor>` (in place) or pass')
+    env = {params[2]: p}
+    last = straight_line(cls, 'derivative_chain', body, env)
+    if isinstance(last, ast.AugAssign) and isinstance(last.op, ast.Mult) and isinstance(last.target, ast.Name) and last.target.id == params[1] \
+            and params[1] not in [k for k in env if k != params[2]]:
+        return to_sym(last.value, env, cls)
+    raise Unsup(f'{cls}.derivative_chain: expected (temporaries, then) `gradient *= <factor>` (in place) or pass')
 
 
 def decide_zero(expr, syms, positive):
